@@ -430,6 +430,14 @@ impl WorldSys {
 		for (f, t) in self.held_links.iter() {
 			v.push(Action::ReleaseLink(*f, *t));
 		}
+		// a stalled background task of a deferred-mode node may resume at any point
+		if !self.finished {
+			for i in 0..n {
+				if self.held_manager[i] && self.w.nodes[i].deferred {
+					v.push(Action::ReleaseManager(i));
+				}
+			}
+		}
 
 		if v.is_empty() && self.finished && self.settle_on_chain {
 			// on-chain settling: confirm whatever is in the mempool, bury it by the anti-reorg depth, let
@@ -828,8 +836,9 @@ impl WorldSys {
 				}
 			},
 			Action::WriteManager(n) => {
-				self.w.nodes[*n].write_manager();
-				self.w.note_manager_written(*n);
+				if self.w.background_persist(*n) {
+					self.w.pump();
+				}
 				self.w.manager_dirty[*n] = false;
 			},
 			Action::Finish => {
@@ -859,8 +868,9 @@ impl WorldSys {
 			Action::ReleaseManager(n) => {
 				self.held_manager[*n] = false;
 				self.w.manager_write_held[*n] = false;
-				self.w.nodes[*n].write_manager();
-				self.w.note_manager_written(*n);
+				if self.w.background_persist(*n) {
+					self.w.pump();
+				}
 			},
 			Action::ReleaseLink(f, t) => {
 				self.held_links.remove(&(*f, *t));
@@ -951,6 +961,7 @@ impl WorldSys {
 					_ => None,
 				};
 				self.w.nodes[*n].persist.inner.lock().unwrap().crash_inside = Some((*k, *after));
+				let manager_before = self.w.nodes[*n].durable_manager.clone();
 				let res = std::panic::catch_unwind(std::panic::AssertUnwindSafe(|| self.step_inner(&default)));
 				match res {
 					Ok(r) => {
@@ -962,6 +973,14 @@ impl WorldSys {
 					Err(payload) => {
 						if payload.is::<crate::persist::CrashNow>() {
 							crate::runner::witness(if *after { "crash-inside-after-write" } else { "crash-inside-before-write" });
+							// deferred mode: the monitor writes happen in the background task's flush, after it wrote the
+							// manager - the durable manager has then already processed the message of this step
+							let lost = if self.w.nodes[*n].deferred && self.w.nodes[*n].durable_manager != manager_before {
+								crate::runner::witness("crash-between-manager-write-and-deferred-monitor-write");
+								None
+							} else {
+								lost
+							};
 							self.do_crash(*n, 0, lost)?;
 						} else {
 							std::panic::resume_unwind(payload);
